@@ -1161,8 +1161,9 @@ def _run_hist_ppo(case, rec):
 AGENT_IDS = ["agent_0", "agent_1", "other_0"]
 
 
-def _check_ippo_get_action(rec, agent, obs, ret):
-    """Every agent's (action, log_prob, entropy) row is the row the shared actor produced for that agent's observation."""
+def _check_ippo_get_action(rec, agent, obs, ret, masks=None):
+    """Every agent's (action, log_prob, entropy) row is the row the shared actor produced for that agent's observation,
+    and the mask that row was sampled under is the mask the caller gave for that agent and environment."""
     actions, logps, ents, values = ret
     site = _site()
     for gi, gid in enumerate(agent.shared_agent_ids):
@@ -1183,6 +1184,14 @@ def _check_ippo_get_action(rec, agent, obs, ret):
                     rec.hit("ippo_rows_not_identifiable(info)")
                     continue
                 r = int(rows[0])
+                want_m = None if masks is None else masks.get(aid)
+                inner = _STATE["last_fwd"].get(id(actor.head_net))
+                if want_m is not None and inner is not None and inner.get("mask") is not None and r < len(inner["mask"]):
+                    rec.hit("agent_mask_row_checks")
+                    got_m = np.asarray(inner["mask"][r]).astype(bool).reshape(-1)
+                    if not np.array_equal(got_m, np.asarray(want_m[e]).astype(bool).reshape(-1)):
+                        rec.violate("masked_zero_prob", "agent_row_sampled_under_another_rows_mask", site, agent=aid, env=e,
+                                    given=np.asarray(want_m[e]).astype(int).tolist(), applied=got_m.astype(int).tolist())
                 if not np.allclose(a[e], fwd["action"][r], rtol=1e-6, atol=1e-7):
                     rec.violate("agent_boundary", "get_action_returns_other_action_than_the_one_scored", site, agent=aid)
                 elif lp[e] != fwd["logp"][r]:
@@ -1232,6 +1241,7 @@ def _run_ippo(case, rec):
     for t in range(T):
         o = mkobs()
         infos = None
+        given = {}
         if case["mask"] != "none" and kind != "box":
             infos = {}
             for aid in AGENT_IDS:
@@ -1240,6 +1250,7 @@ def _run_ippo(case, rec):
                 if m is None:  # Box policies take no mask
                     infos[aid] = {}
                     continue
+                given[aid] = m.copy()
                 m = m.astype(np.int8)
                 # plain lists: IPPO.extract_action_masks cannot take numpy arrays (`None in [...]`)
                 infos[aid] = {"action_mask": m.tolist() if vect else m[0].tolist()}
@@ -1250,7 +1261,7 @@ def _run_ippo(case, rec):
                 raise
             rec.crash(e, "ippo_squash", "IPPO.get_action")
             return
-        _check_ippo_get_action(rec, agent, o, ret)
+        _check_ippo_get_action(rec, agent, o, ret, masks=given or None)
         a, lp, ent, v = ret
         for aid in AGENT_IDS:
             buf["S"][aid].append(o[aid])
